@@ -22,6 +22,16 @@ homogeneous family (Homogeneous, Affine, Similarity, Rotation, Translation, Unif
 five Alignment* classes fitted to inexact correspondences), 2-D and 3-D, so that a code path keyed on the class of
 the transform (not on its matrix) is reached; a pure Translation is placed so that the template lies inside the
 source with a fractional offset.
+
+Re-used warp objects (clause `reuse`): ONE transform object is first used for a warp (with or without landmarks, of the
+same or of another image, through warp_to_shape or warp_to_mask), then re-parametrised through a public route
+(set_target / from_vector_inplace / compose_before_inplace / compose_after_inplace, whichever the class offers) and only
+then handed to the op that is judged; the reference is built from the final parameters alone (a freshly constructed
+equivalent object), so anything the object remembers from its first use shows up as a pixel / landmark disagreement.
+
+Spilling templates (clause `mask_spill`): MaskedImages (mask all True two times in three) under sheared / anisotropic /
+rotated / translated maps scaled so that the template partly leaves the source: the result mask must be False where
+the reference map lands (more than a pixel) outside the source, whatever the corners of the template do.
 """
 import math
 from collections import OrderedDict
@@ -50,7 +60,13 @@ RULE = (
     "border mode, the warp handed over as an instance of any homogeneous-family class). Non-trivial: the sampling map "
     "is not the identity or the shape changes, and at least one result pixel and (if landmarks exist and are warped) "
     "one landmark passes the 'sampled inside the source' filter decided by the reference map. Distinct = distinct "
-    "canonical-JSON digest of the case."
+    "canonical-JSON digest of the case. Clause reuse: the same warp cases, but the transform object (TPS with each "
+    "kernel, the three PiecewiseAffine classes, every Alignment* class, plain homogeneous-family instances) has been "
+    "used for an earlier warp (with / without landmarks, same / another image, warp_to_shape / warp_to_mask) under other "
+    "parameters and was then re-parametrised by set_target / from_vector_inplace / compose_before_inplace / "
+    "compose_after_inplace. Clause mask_spill: MaskedImages (all-true mask 2 in 3) under transform_about_centre (explicit "
+    "shear of both signs, retain_shape on/off), rotate, warp_to_shape, warp_to_mask with maps scaled so the template "
+    "partly leaves the source, 2-D and 3-D."
 )
 ASSUMPTIONS = [
     "reference sampling maps follow the documented meaning of each op: rescale index-space factor (s*len-1)/(len-1); "
@@ -67,6 +83,13 @@ ASSUMPTIONS = [
     "unit ramp at distance 2: 0.041 for order 5, two ramp axes in the sum channel)",
     "alignment warp objects: the reference map is a snapshot of the object's public h_matrix taken before the call "
     "(the quality of the fit is not part of C01); all other classes: the matrix is rebuilt from the case",
+    "re-used warp objects: the reference is computed from the final parameters of the case (Alignment*: h_matrix of a "
+    "freshly fitted object with the same constructor arguments; compose routes: the numpy product of the two matrices); "
+    "routes a class documents as unavailable (2-D rotation / 3-D similarity vectors, a reflection in the similarity "
+    "vector) fall back to compose_before_inplace; the argument-not-modified check of a re-used object looks at its "
+    "non-private state only (a filled memo slot may be refreshed by the next use)",
+    "mask of a result pixel whose source location is within 1 px outside the source border is not judged (SciPy's "
+    "constant-mode edge handling); more than 1 px outside it must be False, inside it is the nearest source mask pixel",
     "modes reflect / wrap: only pixels sampled inside the source are compared (what lies beyond the edge belongs to SciPy)",
 ]
 
@@ -216,14 +239,14 @@ def _lm_fraction():
 
 
 @st.composite
-def s_case(draw, ops=None):
+def s_case(draw, ops=None, force_cls=None):
     ndim = draw(st.sampled_from([2, 2, 2, 3]))
     op = draw(st.sampled_from(ops or (OPS_2D if ndim == 2 else OPS_3D)))
     if op not in OPS_3D:
         ndim = 2
     cls = draw(st.sampled_from(["Image", "MaskedImage", "BooleanImage"]))
-    if op == "crop_to_true_mask":
-        cls = "MaskedImage"
+    if op == "crop_to_true_mask" or force_cls:
+        cls = force_cls or "MaskedImage"
     if op == "gaussian_pyramid" and cls == "BooleanImage":
         cls = "Image"
     smin, smax = (4, 24) if ndim == 2 else (4, 9)
@@ -375,13 +398,26 @@ class Params(object):
     def __init__(self):
         self.items = []
 
-    def add(self, name, obj):
-        self.items.append((name, obj, digest.digest(obj)))
+    def add(self, name, obj, primed=False):
+        self.items.append((name, obj, digest.digest(obj), primed))
         return obj
 
+    @staticmethod
+    def _public_only(dg):
+        def private(path):
+            parts = [q for q in path.replace("]", "").replace("[", ".").split(".") if q]
+            return any(q.startswith("_") and not q.startswith("__") for q in parts)
+
+        return [(p, t) for p, t in dg if not private(p)]
+
     def check(self, ctx, op):
-        for name, obj, before in self.items:
-            dd = digest.parameter_mutation(before, digest.digest(obj))
+        for name, obj, before, primed in self.items:
+            after = digest.digest(obj)
+            if primed:
+                # an object that has been used before holds filled memo slots (last applied points, ...) that the next
+                # use may refresh: only its non-private state has to come back unchanged
+                before, after = self._public_only(before), self._public_only(after)
+            dd = digest.parameter_mutation(before, after)
             ctx.expect(dd is None, "%s.argument_mutated.%s" % (op, name), lambda dd=dd: repr(dd))
 
 
@@ -467,6 +503,13 @@ def kind_linear(kind, c, d, small_rotation=False):
     base = kind.replace("Alignment", "")
     lin = c["lin"]
     if base in ("Affine", "Homogeneous"):
+        if c.get("shear") is not None:
+            # explicit shear (both signs, every axis pair) times a mild anisotropic scale: I + E, |E| row sums < 1
+            S = np.eye(d)
+            off = [(i, j) for i in range(d) for j in range(d) if i != j]
+            for (i, j), v in zip(off, c["shear"]):
+                S[i, j] = float(v)
+            return S.dot(np.diag(1.0 + 0.25 * (np.asarray(lin["s"], dtype=float) - 1.0)))
         return gen.build_linear(d, lin)
     if base == "Similarity":
         s = float(np.prod(lin["s"]) ** (1.0 / d))
@@ -485,7 +528,7 @@ def kind_linear(kind, c, d, small_rotation=False):
     raise ValueError(kind)
 
 
-def build_tobj(c, kind, L, bvec, anchors, ctx):
+def build_tobj(c, kind, L, bvec, anchors, ctx, allow_mirror=None):
     """An instance of class `kind` realising x -> L x + b ((L, b) must already have the class's structure).
     Alignment classes are fitted to noisy correspondences anchors -> L anchors + b + noise (an inexact fit: the warp is
     the fitted matrix, its inverse the exact inverse of that matrix) and the reference is a snapshot of h_matrix.
@@ -499,7 +542,7 @@ def build_tobj(c, kind, L, bvec, anchors, ctx):
         sp = np.asarray(anchors, dtype=float)
         tp = sp.dot(L.T) + bvec + (np.round(rs_.rand(*sp.shape) * 64) / 64 - 0.5) * 0.6
         if kind == "AlignmentSimilarity":
-            t = mt.AlignmentSimilarity(PointCloud(sp), PointCloud(tp), allow_mirror=bool(np.linalg.det(L) < 0))
+            t = mt.AlignmentSimilarity(PointCloud(sp), PointCloud(tp), allow_mirror=bool(np.linalg.det(L) < 0) if allow_mirror is None else allow_mirror)
         else:
             t = getattr(mt, kind)(PointCloud(sp), PointCloud(tp))
         hm = np.array(t.h_matrix, dtype=float)
@@ -536,6 +579,18 @@ def _box_anchors(extent, centre=None):
     return pts
 
 
+def partial_spill_scale(off, half, gap):
+    """Scale k for which SOME corners k * off[i] of a centred box lie inside |x| <= half and the others outside:
+    every corner touches the border at its own scale; k is drawn (gap = [which, where]) between two consecutive
+    distinct touching scales.  None when all corners leave together (no shear / rotation content)."""
+    kk = np.min(np.asarray(half, dtype=float) / np.maximum(np.abs(off), 1e-9), axis=1)
+    ks = np.unique(np.round(kk, 6))
+    if len(ks) < 2:
+        return None
+    i = min(int(float(gap[0]) * (len(ks) - 1)), len(ks) - 2)
+    return float(ks[i] + (0.25 + 0.7 * float(gap[1])) * (ks[i + 1] - ks[i]))
+
+
 def template_to_source_map(c, kind, shape, tshape):
     """(L, b, tshape') of a template -> source map with the structure of `kind` that lands (mostly) inside the source."""
     d = len(shape)
@@ -564,6 +619,16 @@ def template_to_source_map(c, kind, shape, tshape):
     # template centre -> source centre, so that a good part of the template samples inside the source
     tc = (tsh - 1) / 2.0
     sc = (shp - 1) / 2.0
+    if c.get("spill_k") is not None:
+        # the template's image is about as large as the source: parts of it leave the source
+        k = None
+        if c.get("spill_gap") is not None:
+            # a drawn subset of the template's corners stays inside the source, the other corners leave it
+            k = partial_spill_scale((_box_anchors(tsh - 1)[:-1] - tc).dot(L.T), sc, c["spill_gap"])
+        if k is not None:
+            return L * k, sc - (L * k).dot(tc) + np.array(c["t"], dtype=float) * 0.1, tuple(tshape)
+        L = L * (float(c["spill_k"]) * float(np.min((shp - 1) / (tsh - 1))))
+        return L, sc - L.dot(tc) + np.array(c["t"], dtype=float), tuple(tshape)
     scale = min(1.0, float(np.min(shp / (tsh * 2.2))))
     L = L * max(scale, 0.15)
     bvec = sc - L.dot(tc) + np.array(c["t"], dtype=float) * 0.3
@@ -644,6 +709,14 @@ def compare(ctx, c, src, src_digest_before, res, ref, tr=None, tag="", lm_overri
     far_out = np.any((srcp < -1.0) | (srcp > hi + 1.0), axis=1)
     gi = grid.astype(int)
     n_checked = 0
+    if c["cls"] == "MaskedImage" and c.get("mask") == "all":
+        # how the template sits on the source (histogram only): does any result pixel have no source pixel, and is that
+        # visible from the two extreme corners of the result box alone?
+        cs = ref.to_source(_box_anchors(np.asarray(rshape, dtype=float) - 1)[:-1])
+        cin = np.all((cs >= 0) & (cs <= hi), axis=1)
+        ctx.event("all-true mask: result pixels > 1px outside the source=%s" % ("yes" if far_out.any() else "no"))
+        if far_out.any() and cin[0] and cin[-1] and not cin.all():
+            ctx.event("all-true mask: min and max result corners inside the source, another corner outside")
     # ---- pixels
     if c["cls"] != "BooleanImage":
         if pixel_margin_extra or pix_tol_extra:
@@ -797,6 +870,103 @@ def _landmark_clause(ctx, c, src, res, ref, tr, sig, lm_override, margin, pix_to
 
 # ----------------------------------------------------------------------------------------------
 # op dispatch
+
+
+# ----------------------------------------------------------------------------------------------
+# re-used warp objects
+
+
+def _prime(ctx, c, t, tshape, lm_pts):
+    """First use of the warp object `t`: a warp of the case's image (or of a plain float Image of the same shape), with
+    landmarks `lm_pts` attached (so that the op asks the object for its pseudoinverse) or without any.  The first warp
+    is a warp by a freshly built object, which every other case judges; here it only has to happen."""
+    ru = c["reuse"]
+    c1 = dict(c, lms=[])
+    if ru["first_image"] == "Image" or c["cls"] == "BooleanImage" and ru["first_image"] != "same":
+        c1.update(cls="Image", dtype="float64" if c["dtype"] == "bool" else c["dtype"])
+    im = build_source(c1)
+    if ru["first_lm"]:
+        im.landmarks["first"] = PointCloud(np.asarray(lm_pts, dtype=float))
+    ctx.event("reuse: first warp %s landmarks, %s" % ("with" if ru["first_lm"] else "without", ru["first_op"]))
+    if ru["first_op"] == "warp_to_mask":
+        im.warp_to_mask(BooleanImage.init_blank(tuple(tshape)), t, warp_landmarks=bool(ru["first_lm"]))
+    else:
+        im.warp_to_shape(tuple(tshape), t, warp_landmarks=bool(ru["first_lm"]))
+
+
+def _plain(kind, h):
+    """Instance of the (non-alignment) class of `kind` with homogeneous matrix h (h already has the class's structure)."""
+    base = kind.replace("Alignment", "")
+    d = h.shape[0] - 1
+    h = h / h[d, d]
+    if base == "Homogeneous":
+        return mt.Homogeneous(h)
+    if base == "Affine":
+        return mt.Affine(h)
+    if base == "Similarity":
+        return mt.Similarity(h, skip_checks=True)
+    if base == "Rotation":
+        return mt.Rotation(h[:d, :d].copy(), skip_checks=True)
+    if base == "Translation":
+        return mt.Translation(h[:d, d].copy())
+    if base == "UniformScale":
+        return mt.UniformScale(float(h[0, 0]), d)
+    if base == "NonUniformScale":
+        return mt.NonUniformScale(np.diag(h[:d, :d]).copy())
+    raise ValueError(kind)
+
+
+def reused_tobj(ctx, c, kind, shape, tshape, L, bvec, anchors):
+    """A warp object of class `kind` that realises x -> L x + b only AFTER it has been used for another warp with other
+    parameters and has then been re-parametrised through a public route.  Returns (object, L_ref, b_ref): the reference
+    is that of a freshly constructed equivalent object (same constructor arguments as the final state), never read off
+    the re-used object."""
+    ru = c["reuse"]
+    d = len(shape)
+    shp = np.asarray(shape, dtype=float)
+    mirror = bool(np.linalg.det(L) < 0)
+    c1 = dict(c, lin=ru["lin"], t=ru["t"], tfr=ru["tfr"], sfr=ru["sfr"], seed=c["seed"] + 101)
+    L1, b1, _ = template_to_source_map(c1, kind, shape, c["tshape"])
+    t, L1, b1 = build_tobj(c1, kind, L1, b1, anchors, ctx, allow_mirror=mirror)
+    fr = np.array([[0.3, 0.4, 0.35], [0.6, 0.5, 0.7], [0.45, 0.7, 0.5]])[:, :d]
+    _prime(ctx, c, t, tshape, fr * (shp - 1))
+    fresh, L, bvec = build_tobj(c, kind, L, bvec, anchors, ctx, allow_mirror=mirror)
+    h1 = np.eye(d + 1)
+    h1[:d, :d], h1[:d, d] = L1, b1
+    hf = np.eye(d + 1)
+    hf[:d, :d], hf[:d, d] = L, bvec
+    route = ru["route"]
+    base = kind.replace("Alignment", "")
+    if route == "set_target" and not kind.startswith("Alignment"):
+        route = "from_vector"
+    if route == "from_vector":
+        if base == "Similarity" and mirror:
+            route = "compose_before"  # the documented similarity parametrisation (a, b, t) cannot hold a reflection
+        else:
+            try:
+                vec = fresh.as_vector()
+            except NotImplementedError:  # documented: 2-D rotations / 3-D similarities are not vectorizable
+                route = "compose_before"
+    ctx.event("reuse: route=%s" % route)
+    ctx.event("reuse: %s via %s" % (kind, route))
+    if route == "set_target":
+        t.set_target(PointCloud(np.array(fresh.target.points)))
+    elif route == "from_vector":
+        t.from_vector_inplace(np.array(vec))
+    elif route == "compose_before":      # t := delta o t
+        delta = hf.dot(np.linalg.inv(h1))
+        t.compose_before_inplace(_plain(kind, delta))
+        hf = delta.dot(h1)
+    elif route == "compose_after":       # t := t o delta
+        delta = np.linalg.inv(h1).dot(hf)
+        if base in ("Rotation", "UniformScale", "NonUniformScale", "Translation") or (base == "Similarity" and False):
+            pass
+        t.compose_after_inplace(_plain(kind, delta))
+        hf = h1.dot(delta)
+    else:
+        raise ValueError(route)
+    hf = hf / hf[d, d]
+    return t, hf[:d, :d].copy(), hf[:d, d].copy()
 
 
 def _call(f, c, **kw):
@@ -975,6 +1145,12 @@ def c_case(c, ctx):
         else:
             kind = c["tkind"]
             L = kind_linear(kind, c, d)
+            if c.get("spill_gap") is not None and kind.replace("Alignment", "") in ("Affine", "Homogeneous", "Similarity"):
+                # rescale so that the sampling map keeps a drawn subset of the result's corners inside the source
+                Li_ = np.linalg.inv(L)
+                k_ = partial_spill_scale((_box_anchors(shp - 1)[:-1] - (shp - 1) / 2.0).dot(Li_.T), (shp - 1) / 2.0, c["spill_gap"])
+                if k_ is not None and retain:
+                    L = L / k_
             tvec = np.array(c["t"], dtype=float) if kind.replace("Alignment", "") in HAS_T else np.zeros(d)
             # forward map about the centre: anchors are the image corners relative to the centre
             t, L, tvec = build_tobj(c, kind, L, tvec, _box_anchors(shp - 1, centre=shp / 2.0), ctx)
@@ -1024,10 +1200,12 @@ def c_case(c, ctx):
             half[:d, d] = -tc
             rest = h.dot(np.linalg.inv(half))
             t = mt.TransformChain([mt.Translation(-tc), mt.Affine(rest)])
+        elif c.get("reuse"):
+            t, L, bvec = reused_tobj(ctx, c, kind, shape, tshape, L, bvec, _box_anchors(tsh - 1))
         else:
             t, L, bvec = build_tobj(c, kind, L, bvec, _box_anchors(tsh - 1), ctx)
         ctx.event("warp object=%s" % type(t).__name__)
-        kw["transform"] = params.add("transform", t)
+        kw["transform"] = params.add("transform", t, primed=bool(c.get("reuse")))
         ctx.event("batch_size=%s" % c.get("batch"))
         ctx.event("order=%d" % order)
         ref = Ref([{int(s)} for s in tshape], L, bvec, mode=c["mode"], order=order, cval=cval)
@@ -1069,11 +1247,26 @@ def c_case(c, ctx):
             if min(float(pdist(ctrl).min()), float(pdist(tgt).min())) < 1.0:
                 ctx.event("warp_tps: control points closer than 1 px: not judged")
                 return
+        # a re-used object is first built on OTHER targets (same outer box shrunk about the source centre, other
+        # displacements of the inner points), used for a warp, and only then given the case's targets via set_target
+        ru = c.get("reuse")
+        tgt0 = tgt
+        if ru:
+            noise1 = np.array(ru["noise"], dtype=float)[: ctrl.shape[0]] * 0.25 * k
+            noise1[:4] = 0
+            tgt0 = scen + (tgt - noise - scen) * float(ru["shrink"]) + noise1
+        if op == "warp_tps":
             kern = getattr(rbf, c["rbf"])(ctrl) if c["rbf"] else None
-            t = mt.ThinPlateSplines(PointCloud(ctrl), PointCloud(tgt), kernel=kern)
+            t = mt.ThinPlateSplines(PointCloud(ctrl), PointCloud(tgt0), kernel=kern)
         else:
             cls = {"CachedPWA": CachedPWA, "PythonPWA": PythonPWA, "PiecewiseAffine": mt.PiecewiseAffine}[c["pwa_cls"]]
-            t = cls(PointCloud(ctrl), PointCloud(tgt))
+            t = cls(PointCloud(ctrl), PointCloud(tgt0))
+        if ru:
+            first_lm = tgt0 if op == "warp_tps" else objs.bary_points(tgt0, t.trilist, c["bary"])
+            _prime(ctx, c, t, tshape, first_lm)
+            t.set_target(PointCloud(tgt.copy()))
+            ctx.event("reuse: route=set_target")
+            ctx.event("reuse: %s via set_target" % type(t).__name__)
         # landmarks for this op: for PWA points inside target triangles, for TPS the control targets
         for nm in list(src.landmarks.keys()):
             del src.landmarks[nm]
@@ -1084,7 +1277,7 @@ def c_case(c, ctx):
             src.landmarks["in_tris"] = PointCloud(objs.bary_points(tgt, tl, c["bary"]))
             src.landmarks["in_tris2"] = PointCloud(objs.bary_points(tgt, tl, c.get("bary2", c["bary"])))
         before = digest.digest(src)
-        kw, order, warped = _opt(c, dict(transform=params.add("transform", t), mode=c["mode"], batch_size=c.get("batch")),
+        kw, order, warped = _opt(c, dict(transform=params.add("transform", t, primed=bool(ru)), mode=c["mode"], batch_size=c.get("batch")),
                                  default_wl=direct_default_wl)
         ctx.event("batch_size=%s" % c.get("batch"))
         ctx.event("order=%d" % order)
@@ -1244,7 +1437,60 @@ def _compare_warp_to_mask(ctx, c, src, before, res, ref, tr, tmask, warped_landm
     ctx.nontrivial(n_checked > 0 and (lm_ok > 0 or not names or not warped_landmarks))
 
 
+REUSE_OPS = ["warp_affine", "warp_affine", "warp_mask_affine", "warp_pwa", "warp_tps", "warp_tps", "warp_mask_pwa"]
+SPILL_OPS = ["transform_about_centre", "transform_about_centre", "transform_about_centre", "rotate", "warp_affine", "warp_affine",
+             "warp_affine", "warp_mask_affine"]
+SPILL_KINDS = ["Affine", "Affine", "Affine", "Affine", "Homogeneous", "AlignmentAffine", "AlignmentAffine", "Similarity",
+               "Rotation", "NonUniformScale", "Translation"]
+
+
+@st.composite
+def s_reuse(draw):
+    """A warp case whose transform object has had a first life: see reused_tobj / _prime."""
+    c = draw(s_case(ops=REUSE_OPS))
+    d = len(c["shape"])
+    if c["lms"] and draw(st.integers(0, 3)):
+        c["wl"] = True  # the second warp mostly moves landmarks (that is where a remembered inverse would be used)
+    c["reuse"] = {
+        "route": draw(st.sampled_from(["set_target", "set_target", "from_vector", "compose_before", "compose_after"])),
+        "first_lm": draw(st.sampled_from([True, True, False])),
+        "first_image": draw(st.sampled_from(["same", "Image"])),
+        "first_op": draw(st.sampled_from(["warp_to_shape", "warp_to_shape", "warp_to_mask"])),
+        "lin": draw(gen.linear_case(d, smin=0.5, smax=2.0)),
+        "t": draw(st.lists(gen.q(-3, 3, 64), min_size=d, max_size=d)),
+        "tfr": draw(st.lists(gen.q(0.0, 1.0, 64), min_size=d, max_size=d)),
+        "sfr": draw(st.lists(gen.q(0.3, 1.25, 64), min_size=d, max_size=d)),
+        "noise": draw(st.lists(st.lists(gen.q(-0.6, 0.6, 64), min_size=2, max_size=2), min_size=7, max_size=7)),
+        "shrink": draw(gen.q(0.6, 1.0, 64)),
+    }
+    return c
+
+
+@st.composite
+def s_spill(draw):
+    """MaskedImage (mask mostly all True) under a map whose template partly leaves the source."""
+    c = draw(s_case(ops=SPILL_OPS, force_cls="MaskedImage"))
+    d = len(c["shape"])
+    c["mask"] = draw(st.sampled_from(["all", "all", "random", "blob"]))
+    c["mode"] = draw(st.sampled_from(["constant", "constant", "constant", "nearest"]))
+    c["tkind"] = draw(st.sampled_from(SPILL_KINDS))
+    bound = 0.75 if d == 2 else 0.4
+    c["shear"] = draw(st.one_of(st.none(), st.lists(gen.q(-bound, bound, 64), min_size=d * (d - 1), max_size=d * (d - 1))))
+    c["spill_k"] = draw(gen.q(0.6, 1.4, 64))
+    gap = st.lists(gen.q(0.0, 1.0, 64), min_size=2, max_size=2)
+    c["spill_gap"] = draw(st.one_of(st.none(), gap, gap, gap))
+    c["spill"] = True
+    return c
+
+
 CLAUSES = [
     Clause("ops", c_case, s_case, quick=4500, thorough=120000, nt_floor=0.45,
            rule="all ops x all image classes; see RULE"),
+    Clause("reuse", c_case, s_reuse, quick=900, thorough=25000, nt_floor=0.45,
+           rule="warp ops whose transform object was used for an earlier warp and then re-parametrised through "
+                "set_target / from_vector_inplace / compose_*_inplace; judged like any warp against a reference built "
+                "from the final parameters only"),
+    Clause("mask_spill", c_case, s_spill, quick=900, thorough=25000, nt_floor=0.45,
+           rule="MaskedImage (all-true mask 2 in 3) under sheared / anisotropic / rotated / translated maps whose "
+                "template partly leaves the source, 2-D and 3-D; judged like any op of the family"),
 ]
